@@ -22,6 +22,7 @@ type mNode struct {
 	Text  string // scalar: canonical JSON text
 	Keys  []string
 	Elems []*mNode
+	Gone  []string // object: keys removed from it so far (operands for "getgone")
 }
 
 func modelFromRef(doc []byte, n *ref.Node) *mNode {
@@ -98,6 +99,7 @@ func (m *mNode) firstKey(k string) int {
 func (m *mNode) removeAt(i int) {
 	m.Elems = append(m.Elems[:i], m.Elems[i+1:]...)
 	if m.Kind == ref.TObjOpen {
+		m.Gone = append(m.Gone, m.Keys[i])
 		m.Keys = append(m.Keys[:i], m.Keys[i+1:]...)
 	}
 }
@@ -135,7 +137,7 @@ func init() { register("C15", func() Case { return &C15Case{} }) }
 
 var c15CreateNames = []string{"NewRaw", "Get", "Get+LoadAll", "NewRawConcurrentRead", "Searcher{ConcurrentRead}", "Unmarshal(ast.Node)"}
 
-var c15OpNames = []string{"get", "getmissing", "index", "indexpair", "indexorget", "len", "type", "values", "properties", "foreach", "set", "setnew", "setbyindex", "add", "unset", "unsetmissing", "unsetbyindex", "pop", "move", "sortkeys", "load", "marshal", "raw", "interface", "exists"}
+var c15OpNames = []string{"get", "getmissing", "index", "indexpair", "indexorget", "len", "type", "values", "properties", "foreach", "set", "setnew", "setbyindex", "add", "unset", "unsetmissing", "unsetbyindex", "pop", "move", "sortkeys", "load", "marshal", "raw", "interface", "exists", "popn", "getgone"}
 
 func drawC15(t *rapid.T) Case {
 	c := &C15Case{}
@@ -143,6 +145,26 @@ func drawC15(t *rapid.T) Case {
 	c.Doc = gen.ValidDoc(t, gen.DocOpt{Str: gen.StrOpt{MaxPieces: 2}, Wide: rapid.IntRange(0, 3).Draw(t, "wide") == 0, MaxDepth: 3, Nested: true, KeyPool: keyPool, Num: gen.NumOpt{}})
 	if !json.Valid(c.Doc) {
 		c.Doc = []byte(`{"a":[1,2,{"b":null}],"c":"x"}`)
+	}
+	// one case in five: a top-level object wide enough for the hash index (> 16 members), mostly distinct keys
+	wideRoot := rapid.IntRange(0, 4).Draw(t, "wideRoot") == 0
+	if wideRoot {
+		var b bytes.Buffer
+		b.WriteByte('{')
+		nk := rapid.IntRange(15, 26).Draw(t, "nk")
+		for i := 0; i < nk; i++ {
+			if i > 0 {
+				b.WriteByte(',')
+			}
+			k := fmt.Sprintf("k%02d", i)
+			if rapid.IntRange(0, 11).Draw(t, "dupk") == 0 {
+				k = fmt.Sprintf("k%02d", rapid.IntRange(0, nk-1).Draw(t, "dk"))
+			}
+			v := []string{"1", `"s"`, "null", "[1,2]", `{"a":1}`, "true"}[rapid.IntRange(0, 5).Draw(t, "wv")]
+			fmt.Fprintf(&b, "%q:%s", k, v)
+		}
+		b.WriteByte('}')
+		c.Doc = b.Bytes()
 	}
 	c.Create = rapid.IntRange(0, len(c15CreateNames)-1).Draw(t, "create")
 	n := rapid.IntRange(1, 14).Draw(t, "nops")
@@ -155,8 +177,11 @@ func drawC15(t *rapid.T) Case {
 			op.Op = "copyload" // kept rare: after it, failures are attributed to the listed copy finding
 		}
 		op.Cur = rapid.IntRange(0, 500).Draw(t, "cur")
-		op.A = rapid.IntRange(0, 20).Draw(t, "a")
-		op.B = rapid.IntRange(0, 20).Draw(t, "b")
+		if wideRoot && rapid.IntRange(0, 3).Draw(t, "atroot") != 0 {
+			op.Cur = 0
+		}
+		op.A = rapid.IntRange(0, 45).Draw(t, "a")
+		op.B = rapid.IntRange(0, 45).Draw(t, "b")
 		op.K = []string{"nokey", "zz", "", "a ", "B"}[rapid.IntRange(0, 4).Draw(t, "k")]
 		switch op.Op {
 		case "set", "setnew", "setbyindex", "add":
@@ -218,7 +243,7 @@ func c15Same(rn *ast.Node, mn *mNode) string {
 }
 
 type c15Flags struct {
-	mutated, readAfterMutation, lazyStart, dupKey, emptyKey, wide, copyLoaded bool
+	mutated, readAfterMutation, lazyStart, dupKey, emptyKey, wide, copyLoaded, goneRead bool
 }
 
 func c15KindToType(k int) int {
@@ -313,6 +338,27 @@ func (c *C15Case) Run() (res stat.Result) {
 			if sub := rn.Get(op.K); sub != nil && sub.Exists() {
 				return fail("Get(%q): exists, model has no such key", op.K)
 			}
+		case "getgone":
+			// a key that was removed from this object earlier: absent, unless a duplicate or a later Set brought it back
+			if mn.Kind != ref.TObjOpen || len(mn.Gone) == 0 {
+				continue
+			}
+			k := mn.Gone[op.A%len(mn.Gone)]
+			sub := rn.Get(k)
+			if wi := mn.firstKey(k); wi < 0 {
+				if sub != nil && sub.Exists() {
+					return fail("Get(%q) after its removal: exists, model has no such key", k)
+				}
+			} else {
+				if sub == nil || !sub.Exists() {
+					return fail("Get(%q): missing, model has it", k)
+				}
+				if d := c15Same(sub, mn.Elems[wi]); d != "" {
+					return fail("Get(%q): %s", k, d)
+				}
+			}
+			fl.readAfterMutation = true
+			fl.goneRead = true
 		case "index":
 			if !mn.isContainer() {
 				continue
@@ -580,6 +626,19 @@ func (c *C15Case) Run() (res stat.Result) {
 				mn.removeAt(n - 1)
 				fl.mutated = true
 			}
+		case "popn":
+			if !mn.isContainer() {
+				continue
+			}
+			for k := 0; k < 1+op.B%6; k++ {
+				if err := rn.Pop(); err != nil {
+					return fail("Pop() error %v", err)
+				}
+				if len(mn.Elems) > 0 {
+					mn.removeAt(len(mn.Elems) - 1)
+					fl.mutated = true
+				}
+			}
 		case "move":
 			if mn.Kind != ref.TArrOpen || n < 2 {
 				continue
@@ -662,6 +721,8 @@ func (c *C15Case) finish(res *stat.Result, fl *c15Flags) {
 	add(fl.emptyKey, "empty-key")
 	add(fl.wide, "wide>16")
 	add(fl.copyLoaded, "copy-loaded")
+	add(fl.goneRead, "read-of-removed-key")
+	add(fl.goneRead && fl.wide, "read-of-removed-key-wide")
 	for _, op := range c.Ops {
 		res.Classes = append(res.Classes, "op:"+op.Op)
 	}
